@@ -59,7 +59,7 @@ def recCore {α : Type} [Inhabited α] (A : Arith α) (one : α) (getAct : Strin
       (m, sp)
   | _, _, _ => (.error .panic, none)
 
-def runRecOp (op : String) (attrs : Json) (ins : List (Option DT)) (nOut : Nat) : Answer :=
+def runRecOpCore (op : String) (attrs : Json) (ins : List (Option DT)) (nOut : Nat) (skipIF : Bool) : Answer :=
   let names := attrNames attrs
   let allowed := ["activation_alpha", "activation_beta", "activations", "clip", "direction", "hidden_size"] ++
     (if op == "GRU" then ["linear_before_reset"] else if op == "LSTM" then ["input_forget"] else [])
@@ -67,7 +67,7 @@ def runRecOp (op : String) (attrs : Json) (ins : List (Option DT)) (nOut : Nat) 
   else if names.contains "clip" then { model := .ofErr .attr, spec := { domain := "mayRefuse" }, tags := ["clip"] }
   else if names.contains "direction" && attrStr attrs "direction" "forward" != "forward" then
     { model := .ofErr .attr, spec := { domain := "mayRefuse" }, tags := ["direction"] }
-  else if op == "LSTM" && attrInt attrs "input_forget" 0 == 1 then
+  else if op == "LSTM" && attrInt attrs "input_forget" 0 == 1 && !skipIF then
     { model := .ofErr .attr, spec := { domain := "mayRefuse" }, tags := ["input_forget"] }
   else
     let defaults := if op == "RNN" then ["tanh"] else if op == "GRU" then ["sigmoid", "tanh"] else ["sigmoid", "tanh", "tanh"]
@@ -110,6 +110,15 @@ def runRecOp (op : String) (attrs : Json) (ins : List (Option DT)) (nOut : Nat) 
           | some outs => { domain := if inMust then "must" else "mayRefuse", outs := some (outs.map fun t => some (DT.mk dt t none)) }
           | none => { domain := "mayRefuse" },
         tags := tags ++ ["exact"], guard }
+
+def runRecOp (op : String) (attrs : Json) (ins : List (Option DT)) (nOut : Nat) : Answer :=
+  let a := runRecOpCore op attrs ins nOut false
+  if a.tags == ["input_forget"] then
+    -- refused today; if it is ever computed, the coupled gates (f = 1 - i) must make a difference:
+    -- the result must not be the one obtained with the attribute ignored
+    let ignored := runRecOpCore op attrs ins nOut true
+    { a with spec := { domain := "mayRefuse", notOuts := if ignored.model.status == "ok" then some ignored.model.outs else none } }
+  else a
 
 def isRecOp (op : String) : Bool := op == "RNN" || op == "GRU" || op == "LSTM"
 
